@@ -67,3 +67,104 @@ Proof.
   intros e. split; [exact (parse_print_min _ _ _ _ generated_table_wf e)|exact (parse_print_full _ _ _ _ generated_table_wf e)].
 Qed.
 Print Assumptions C08_minimal_and_maximal_parentheses_agree.
+
+(* indentation, statement level: the statement rules of the generated parser together with the listener
+   (Syntax/StmtParser.v, over the token table extracted from the Go source by tools/gen_tokentable.py)
+   read every written program back as the dialogue it stands for - and an INDENT ... DEDENT block
+   around ANY run of statements, at any depth, changes nothing ([meaning] of a block is the meaning of
+   the statements in it): the width of an indentation never reaches the parser, and whether a body is
+   indented at all does not matter to it.  [er] is any way of writing expressions that the expression
+   parser reads back (redundant parentheses and operator spellings: the theorems above and C02).
+   Hypotheses on the written program ([wfs]): texts of a line are non-empty and not adjacent (the
+   listener merges adjacent TEXT tokens); an option group not followed by its blank-line token is not
+   directly followed by another option, by that token, or - when its last option has no body - by an
+   indented block (each of these would be read as part of the group: that is the grammar, not a
+   defect); a generic command is not directly followed by a hashtag. *)
+From YS Require Import Generated.TokenTable Syntax.StmtParser Proofs.StmtParserProofs.
+
+Theorem C08_written_statements_are_read_back_whatever_is_indented :
+  forall (er : expr -> list (kind * str)) (ewf : expr -> Prop),
+  (forall e, Forall is_etok (er e)) ->
+  (forall e, ewf e -> parse_expression (fst (take_etoks (er e))) = Some e) ->
+  (forall f args, ewf (ECall f args) -> parse_call_toks (fst (take_etoks (er (ECall f args)))) = Some (f, args)) ->
+  (forall v, ewf v -> (exists a, v = expr_of_atom a) \/ (exists f args, v = ECall f args) ->
+             parse_value_toks (fst (take_etoks (er v))) = Some v) ->
+  forall ws rest fuel,
+    wfs er ewf ws (hd_kind rest) -> starts_statement rest = false -> wssize ws <= fuel ->
+    parse_stmts fuel (pws er ws ++ rest) = Some (meaning ws, rest).
+Proof. exact parse_written. Qed.
+Print Assumptions C08_written_statements_are_read_back_whatever_is_indented.
+
+Theorem C08_an_indented_block_is_the_statements_in_it : forall ws, meaning [WBlock ws] = meaning ws.
+Proof. intros ws. cbn [meaning]. rewrite meaning1_block. apply app_nil_r. Qed.
+
+(* non-vacuity 1: the hypotheses on [er] are satisfiable for a whole class of programs - those whose
+   expressions are variables *)
+Definition er_var (e : expr) : list (kind * str) := match e with EVar x => [(K_VAR_ID, 36%N :: x)] | _ => [] end.
+Definition ewf_var (e : expr) : Prop := exists x, e = EVar x.
+Example C08_expression_writer_exists :
+  (forall e, Forall is_etok (er_var e)) /\
+  (forall e, ewf_var e -> parse_expression (fst (take_etoks (er_var e))) = Some e) /\
+  (forall f args, ewf_var (ECall f args) -> parse_call_toks (fst (take_etoks (er_var (ECall f args)))) = Some (f, args)) /\
+  (forall v, ewf_var v -> (exists a, v = expr_of_atom a) \/ (exists f args, v = ECall f args) ->
+             parse_value_toks (fst (take_etoks (er_var v))) = Some v).
+Proof.
+  Local Transparent take_etoks parse_expression.
+  repeat split.
+  - intros e. destruct e; cbn; repeat constructor. unfold is_etok. cbn. discriminate.
+  - intros e [x ->]. reflexivity.
+  - intros f args [x H]. discriminate H.
+  - intros v [x ->] _. reflexivity.
+Qed.
+
+(* non-vacuity 2: a concrete program - an option group inside an if inside an indented block, an
+   elseif and an else, a declaration with a type, a command with an inline expression - as the tokens
+   of the real lexer's vocabulary; the model reads the dialogue off it *)
+Definition ex_tokens : list (kind * str) :=
+  [(K_ID, STR "title"); (K_HEADER_DELIMITER, STR ": "); (K_REST_OF_LINE, STR "Start"); (K_BODY_START, STR "---");
+   (K_INDENT, []);
+   (K_COMMAND_START, []); (K_COMMAND_IF, []); (K_VAR_ID, STR "$a"); (K_OPERATOR_LOGICAL_AND, []); (K_KEYWORD_TRUE, []); (K_COMMAND_END, []);
+   (K_INDENT, []);
+   (K_SHORTCUT_ARROW, []); (K_TEXT, STR "O"); (K_TEXT, STR "ne"); (K_NEWLINE, []);
+   (K_INDENT, []); (K_TEXT, STR "inner "); (K_EXPRESSION_START, []); (K_VAR_ID, STR "$a"); (K_EXPRESSION_END, []); (K_NEWLINE, []); (K_DEDENT, []);
+   (K_SHORTCUT_ARROW, []); (K_TEXT, STR "Two"); (K_HASHTAG, []); (K_HASHTAG_TEXT, STR "t"); (K_NEWLINE, []);
+   (K_DEDENT, []);
+   (K_COMMAND_START, []); (K_COMMAND_ELSEIF, []); (K_VAR_ID, STR "$b"); (K_COMMAND_END, []);
+   (K_COMMAND_START, []); (K_COMMAND_JUMP, []); (K_ID, STR "Start"); (K_COMMAND_END, []);
+   (K_COMMAND_START, []); (K_COMMAND_ELSE, []); (K_COMMAND_END, []);
+   (K_COMMAND_START, []); (K_COMMAND_TEXT, STR "walk left "); (K_COMMAND_EXPRESSION_START, []); (K_VAR_ID, STR "$a"); (K_EXPRESSION_END, []);
+   (K_COMMAND_TEXT_END, []);
+   (K_COMMAND_START, []); (K_COMMAND_ENDIF, []); (K_COMMAND_END, []);
+   (K_DEDENT, []);
+   (K_COMMAND_START, []); (K_COMMAND_DECLARE, []); (K_VAR_ID, STR "$z"); (K_OPERATOR_ASSIGNMENT, []); (K_KEYWORD_FALSE, []);
+   (K_EXPRESSION_AS, []); (K_FUNC_ID, STR "bool"); (K_COMMAND_END, []);
+   (K_BODY_END, STR "==="); (K_EOF, [])].
+
+Example C08_example_program_is_read :
+  parse_dialogue ex_tokens =
+  Some [{| headers := [(STR "title", STR "Start")];
+           body := [SIf [(EBin OAnd (EVar (STR "a")) (EVal (VBool true)),
+                          [SOpts [({| ltext := [TText (STR "One")]; lcond := None; ltags := [] |},
+                                   [SLine {| ltext := [TText (STR "inner "); TExpr (EVar (STR "a"))]; lcond := None; ltags := [] |}]);
+                                  ({| ltext := [TText (STR "Two")]; lcond := None; ltags := [STR "t"] |}, [])]]);
+                         (EVar (STR "b"), [SJump (EVal (VStr (STR "Start")))]);
+                         (EVal (VBool true), [SCmd [EVal (VStr (STR "walk")); EVal (VStr (STR "left")); EVar (STR "a")]])];
+                    SDeclare (STR "z") (EVal (VBool false))] |}].
+Proof. vm_compute. reflexivity. Qed.
+
+(* a whole node: one header, the written body, the end marker (the fuel of the model's parse_node,
+   2 * tokens + 4, is a premise here: that it always suffices is not proved) *)
+Theorem C08_written_node_is_read_back_partial :
+  forall (er : expr -> list (kind * str)) (ewf : expr -> Prop),
+  (forall e, Forall is_etok (er e)) ->
+  (forall e, ewf e -> parse_expression (fst (take_etoks (er e))) = Some e) ->
+  (forall f args, ewf (ECall f args) -> parse_call_toks (fst (take_etoks (er (ECall f args)))) = Some (f, args)) ->
+  (forall v, ewf v -> (exists a, v = expr_of_atom a) \/ (exists f args, v = ECall f args) ->
+             parse_value_toks (fst (take_etoks (er v))) = Some v) ->
+  forall k d v s ws e rest,
+    wfs er ewf ws K_BODY_END ->
+    wssize ws <= stmt_fuel (pws er ws ++ (K_BODY_END, e) :: rest) ->
+    parse_node ((K_ID, k) :: (K_HEADER_DELIMITER, d) :: (K_REST_OF_LINE, v) :: (K_BODY_START, s) :: pws er ws ++ (K_BODY_END, e) :: rest)
+    = Some ({| headers := [(k, v)]; body := meaning ws |}, rest).
+Proof. exact parse_written_node. Qed.
+Print Assumptions C08_written_node_is_read_back_partial.
